@@ -79,6 +79,37 @@ class _Reject:
         raise RuntimeError("unknown rejection kind")
 
 
+GOOD_TOKEN = "c20-good-token"
+BAD_TOKEN = "c20-bad-token"
+EDGE_HEADER = "X-Edge-Verified"
+
+
+class StatefulAuth:
+    """Operator callback whose verdict is about the whole request and about *now*.
+
+    Accepts iff the Authorization value it sees is ``Bearer GOOD_TOKEN``, the token is currently live and (when
+    ``need_edge``) the request carries the proxy header.  Rejections raise ValueError (``perm`` False) or
+    PermissionError (``perm`` True).  The scenario driver flips ``live`` / ``need_edge`` / ``perm`` between requests.
+    Every invocation is recorded as (path, Authorization value seen, accepted)."""
+
+    def __init__(self) -> None:
+        self.live = True
+        self.need_edge = False
+        self.perm = False
+        self.calls: list[tuple[str, str | None, bool]] = []
+
+    def __call__(self, req: Any) -> AuthContext:
+        seen = req.env.get("HTTP_AUTHORIZATION")
+        ok = seen == f"Bearer {GOOD_TOKEN}" and self.live and (not self.need_edge or bool(req.get_header(EDGE_HEADER)))
+        self.calls.append((req.path, seen, ok))
+        AUTH_CALLS.append(req.path)
+        if ok:
+            return AuthContext(domain="c20", authenticated=True, principal="alice", claims={})
+        if self.perm:
+            raise PermissionError("rejected by C20 stateful callback")
+        raise ValueError("rejected by C20 stateful callback")
+
+
 def _upload_provider() -> Any:
     class Provider:
         def generate_upload_url(self, *a: Any, **k: Any) -> Any:
@@ -105,8 +136,9 @@ def make_app(
     sticky: bool = False,
     upload: bool = False,
     max_request_bytes: int | None = None,
+    authenticate: Any = None,
 ) -> Any:
-    """The real WSGI app.  ``reject`` None = no authenticate callback configured."""
+    """The real WSGI app.  ``reject`` None = no authenticate callback configured (unless ``authenticate`` is given)."""
     import logging
     import warnings
 
@@ -135,7 +167,7 @@ def make_app(
             server,
             prefix=prefix,
             token_key=b"k" * 32,
-            authenticate=None if reject is None else _Reject(reject),
+            authenticate=authenticate if authenticate is not None else (None if reject is None else _Reject(reject)),
             enable_health_endpoint=health,
             **kw,
         )
